@@ -129,3 +129,14 @@ def selected_matches(answers, rec, fraction):
 def case_dump(c, sc):
     return dict(scenario=sc, pair=c['pair'], cell=c['cell'].tolist(), structure=describe(c['s']), search=dict(elements=c['pel'], positions=(c['pp'] + OFF).tolist()),
                 replacement=dict(elements=c['rel'], positions=(c['rpos'] + OFF).tolist() if len(c['rel']) else []))
+
+
+def combined_c(pp, extra):
+    """amplification constant for [search coords || replacement-only coords]: axis points from the search pattern, orientation
+    point = the combined point farthest from the axis (finite also for collinear search patterns, whose twist is free)"""
+    if len(pp) < 2:
+        return 1.0
+    P_all = np.vstack([pp, extra]) if len(extra) else np.asarray(pp, float)
+    a1, a2, _ = resolve_hints(pp)
+    c = cconst(P_all, a1, a2, None)
+    return c if np.isfinite(c) else 2 + 2 * np.linalg.norm(P_all - P_all[a1], axis=1).max() / np.linalg.norm(P_all[a2] - P_all[a1])
